@@ -58,6 +58,7 @@ def run(ctx):
             if name.startswith(".internal"):
                 offs[name[9:].partition(".")[2].lower()] = v - 0o40000
         kind = rng.choice(["plain", "plain", "plain", "viasym", "shift0", "shl", "div", "self", "self2", "second", "none", "leading-dot", "outofrange"])
+        second_elsewhere = None
         K = rng.randrange(0, 0o1400) * 2
         pairs = [(rng.choice(labels), rng.choice(labels), rng.choice([1, 1, 2, -1])) for _ in range(rng.randint(1, 3))] if labels else []
         diff_value = sum(k * (offs[a.lower()] - offs[b.lower()]) for a, b, k in pairs)
@@ -100,7 +101,12 @@ def run(ctx):
             expect_err = "recursive-definition"
         elif kind == "second":
             expr = num(K, rng)
-            extra_first.append(".link %s" % num(K + 2, rng))
+            # another value, the same value spelled differently, or the very same text (a project whose files all begin alike)
+            second = rng.choice([num(K + 2, rng), num(K + 2, rng), num(K, rng), expr, expr])
+            if rng.random() < 0.4 and len(itemsets) > 1:
+                second_elsewhere = ".link " + second
+            else:
+                extra_first.append(".link " + second)
             expected = K
             expect_err = "address-conflict"
         elif kind == "none":
@@ -134,6 +140,8 @@ def run(ctx):
                     lines.insert(pos, ".link " + expr)
                 for e in extra_first:
                     lines.append(e)
+            elif i == 1 and second_elsewhere:
+                lines.insert(rng.choice([0, len(lines)]), second_elsewhere)
             texts.append("\n".join(lines))
         files = [("/w/f%d.mac" % i, t) for i, t in enumerate(texts)]
         r = impl.assemble(files, want_symbols=True)
